@@ -379,7 +379,8 @@ Definition rstep (s : rstate) (tid : nat) : rres :=
           | IArcDrop k i =>
               let o := robj_get s k in
               if nth i (ro_slots o) false
-              then done1 (set_obj s k (ro_with_arc o (ro_cnt o - 1) (list_set (ro_slots o) i false))) tid t RUnit
+              then done1 (set_obj s k (ro_with_arc o (ro_cnt o - 1) (list_set (ro_slots o) i false))) tid t
+                         (if Nat.eqb (ro_cnt o - 1) 0 then RVal 1 else RUnit)
               else done1 s tid t RX
           | IArcCount k i =>
               let o := robj_get s k in
